@@ -18,7 +18,8 @@ RULE = (
     "operation (intermediate, fused, every output of multi-output ops, structured intermediates), the shape of the value being "
     "written with the shape of the selection it is written into (nothing may be broadcast or truncated by Zarr). For every node "
     "the shape/dtype/chunks declared before compute must equal the computed result's shape/dtype and the shape/dtype/chunk grid "
-    "of the Zarr array opened from storage, and the declared shape must equal NumPy's. Non-trivial = accepted program with a "
+    "of the Zarr array opened from storage (for the result of a lazy store/to_zarr inside the program - existing targets with the "
+    "same, dividing or unrelated chunks, or a path - the target itself), and the declared shape must equal NumPy's. Non-trivial = accepted program with a "
     "multi-block input; distinct = canonical JSON. Blocks with zero elements are exempt from the block-shape clause (counted)."
 )
 ASSUMPTIONS = [
@@ -94,8 +95,9 @@ def check_case(case) -> Outcome:
                 try:
                     from cubed.storage.zarr import LazyZarrArray
 
-                    if isinstance(za, LazyZarrArray) and run == 0:
-                        z = za.open()
+                    if run == 0 and (isinstance(za, LazyZarrArray) or (opname(i) == "store_lazy" and hasattr(za, "nchunks"))):
+                        # the array that backs the node: an intermediate, or the target of a lazy store inside the program
+                        z = za.open() if isinstance(za, LazyZarrArray) else za
                         if tuple(z.shape) != d["shape"] or np.dtype(z.dtype) != d["dtype"]:
                             fails.append(Failure(f"storage-meta:{opname(i)}", f"node {i}: zarr {z.shape}/{z.dtype} declared {d['shape']}/{d['dtype']}"))
                         zc = tuple(z.chunks)
@@ -134,9 +136,9 @@ def case_strategy(opts=None, max_ops=5, min_ops=0):
 def shards(tier):
     fams = list(c01.FOCUS)
     if tier == "quick":
-        return [{"kind": "program", "name": f"dag{i}", "n": 90, "rotate": 3 + i * 29} for i in range(5)] + [
+        return [{"kind": "program", "name": f"dag{i}", "n": 90, "rotate": 3 + i * 29, "store_mid": 10 if i % 2 else 4} for i in range(5)] + [
             {"kind": "program", "name": f"focus-{f}", "n": 90, "rotate": 5 + j * 13, "focus": f, "max_ops": 2, "min_ops": 1} for j, f in enumerate(fams)]
-    return [{"kind": "program", "name": f"dag{i}", "n": 1500, "rotate": 3 + i * 29} for i in range(12)] + [
+    return [{"kind": "program", "name": f"dag{i}", "n": 1500, "rotate": 3 + i * 29, "store_mid": 10 if i % 2 else 4} for i in range(12)] + [
         {"kind": "program", "name": f"focus-{f}", "n": 1800, "rotate": 5 + j * 13, "focus": f, "max_ops": 2, "min_ops": 1} for j, f in enumerate(fams)]
 
 
@@ -146,6 +148,8 @@ def run_shard(spec, seed, tier) -> Acc:
         return core.corpus_shard(sys.modules[__name__], acc)
     is_known, _ = core.known_matcher(ID)
     opts = {"rotate": spec.get("rotate", 0)}
+    if spec.get("store_mid"):
+        opts["store_mid"] = spec["store_mid"]
     if spec.get("focus"):
         opts["only_ops"] = c01.focus_ops(spec["focus"])
     core.hyp_run(case_strategy(opts, max_ops=spec.get("max_ops", 5), min_ops=spec.get("min_ops", 0)), check_case, seed=seed, max_examples=spec["n"], acc=acc,
